@@ -66,6 +66,7 @@ STRENGTHENED = [
     ("seeded/C09-f", "dictionaries whose keys are not identifiers are returned before their values are visited", "C09 dictionary results with keys that are not identifiers (blanks, keywords, empty, dashes, repeated)"),
     ("seeded/C11-f", "an override executor is cached as an annotation on the executed stream's top node, which descendants share (dump and item type unchanged)", "C11 snapshots include where the executor / dataset references sit on the nodes of every stream and what they refer to (C12 catches the change unchanged)"),
     ("seeded/C14-f", "dictionary literals keyed by non-negative integers are no longer resolved", "typed generator: dictionaries keyed by integers, written in an order that is not the positional one ({1: a, 0: b}[0])"),
+    ("seeded/C17-f", "an EMPTY caller-supplied function_names list is treated as 'not given' (the default operator list is used)", "C17: in a fifth of the cases the function is called with its second parameter - any subset of the operator names plus two look-alikes, also the empty list; the reference transform, the residual scan and the second application use the same list"),
     ("seeded/C08-c", "generic subclass with more type parameters than its base uses", "C08 skeleton: Tag(Box[K], Generic[K,V]), Tag2(Box[V], ...), Swap(Pair[U,T], ...), HalfPair(Pair[T,int]), It2(Iterable[V], ...), TagInts(Tag[int,V]); class names taken from typing. This extension also exposed the genuine defects D29 and D30"),
 ]
 
